@@ -304,3 +304,67 @@ def case_id(*parts):
         else:
             out.append(str(p))
     return ".".join(out)
+
+
+# --------------------------------------------------------------------------------------------------
+# operands far from norm 1 (round 2)
+# --------------------------------------------------------------------------------------------------
+
+def scale_tt(torchtt, t, spec):
+    """
+    Rescale a TT object through its cores.  spec is None or a dict:
+      {"mode": "one",    "factor": f, "core": k}  core (k mod d) multiplied by f
+      {"mode": "spread", "factor": f}             every core multiplied by |f|**(1/d) (sign on core 0)
+      {"mode": "alt",    "p": p}                  core k multiplied by 10**((-1)**k * p)  (wildly different core scales)
+    """
+    if not spec:
+        return t
+    cores = [c.clone() for c in t.cores]
+    d = len(cores)
+    mode = spec["mode"]
+    if mode == "one":
+        k = int(spec.get("core", 0)) % d
+        cores[k] = cores[k] * float(spec["factor"])
+    elif mode == "spread":
+        f = float(spec["factor"])
+        g = abs(f) ** (1.0 / d)
+        cores = [c * g for c in cores]
+        if f < 0:
+            cores[0] = -cores[0]
+    elif mode == "alt":
+        p = float(spec.get("p", 3))
+        cores = [c * (10.0 ** (((-1) ** k) * p)) for k, c in enumerate(cores)]
+    else:
+        raise ValueError("unknown scale mode %r" % mode)
+    return torchtt.TT(cores)
+
+
+def scale_tag(spec):
+    if not spec:
+        return "scale=none"
+    if spec["mode"] == "one":
+        return "scale=one@%d*%g" % (int(spec.get("core", 0)), float(spec["factor"]))
+    if spec["mode"] == "spread":
+        return "scale=spread*%g" % float(spec["factor"])
+    return "scale=alt^%g" % float(spec.get("p", 3))
+
+
+def inflate_tt(torchtt, t):
+    """The same dense value stored with doubled (redundant) TT ranks: x = x/2 + x/2 assembled block-wise by hand."""
+    cores = t.cores
+    d = len(cores)
+    if d == 1:
+        return t
+    new = []
+    for k, c in enumerate(cores):
+        if k == 0:
+            new.append(torch.cat((c, c), -1) * 0.5)
+        elif k == d - 1:
+            new.append(torch.cat((c, c), 0))
+        else:
+            z = torch.zeros_like(c)
+            new.append(torch.cat((torch.cat((c, z), -1), torch.cat((z, c), -1)), 0))
+    return torchtt.TT(new)
+
+
+SCALES_ONE_CORE = [1e-6, 1e-3, 1e3, 1e6]
